@@ -1,6 +1,6 @@
 """C12 - tree utilities are faithful to the tree's decision function."""
 from vf import loader
-from vf.core import Clause, Outcome, Violation, require, with_sk
+from vf.core import Clause, Outcome, Violation, require, with_sk, round_trip, COPIES
 
 import numpy as np
 from hypothesis import strategies as st
@@ -65,6 +65,10 @@ def check_digitize(case):
     x64 = x32.astype(np.float64)
     expected = np.digitize(x64, bins, right=True)
     tree = _dig.digitize2tree(bins_in, right=True)
+    if case.get("via_copy"):
+        # the returned estimator after persistence / a deep copy (scikit-learn trees survive both exactly) is still the tree of THESE bins
+        tree = round_trip(tree, case["via_copy"])
+    facts["via_copy"] = case.get("via_copy") or "none"
     got = tree.predict(x32.reshape(-1, 1))
     require(got.shape == expected.shape, "digitize:shape", "%r" % (got.shape,), facts)
     bad = np.nonzero(got != expected)[0]
@@ -83,7 +87,7 @@ def check_digitize(case):
         pass
     edge_hit = bool(np.isin(x64, bins).any())
     labels = ["descending" if desc else "ascending", "n=1" if n == 1 else ("n=2" if n == 2 else ("n<=8" if n <= 8 else "n>8")),
-              "edge-hit" if edge_hit else "no-edge-hit", case.get("kind", "grid"), "bins:" + bd, "nan-query" if case.get("nan_query") else "finite-queries"]
+              "edge-hit" if edge_hit else "no-edge-hit", case.get("kind", "grid"), "bins:" + bd, "nan-query" if case.get("nan_query") else "finite-queries", "via-copy:" + str(case.get("via_copy") or "none")]
     return Outcome(labels, n >= 3 and edge_hit)
 
 
@@ -269,7 +273,7 @@ def _tree_cases(draw, tier="quick"):
 
 
 CLAUSES = [
-    Clause("digitize", check_digitize, strategy=lambda tier: with_sk(_digitize_cases(tier)), quick=2500, thorough=60000, quick_shards=8,
+    Clause("digitize", check_digitize, strategy=lambda tier: st.builds(lambda c, h: dict(c, via_copy=h), with_sk(_digitize_cases(tier)), st.sampled_from(COPIES)), quick=2500, thorough=60000, quick_shards=8,
            doc="digitize2tree(bins, right=True).predict == numpy.digitize(right=True), all bins directions"),
     Clause("digitize-lengths", check_digitize, cases=_length_cases, quick_shards=4, exhaustive=True,
            doc="every bins length in the bounds, both directions, all edges/midpoints/neighbours"),
